@@ -193,6 +193,39 @@ def o12_2(tier):
     return res
 
 
+JUDGE_RES = '''        def JUDGE(S0, S1, margs):
+            got = sorted((n, u) for s, n, u in S1["res"] if s == margs["m.step"])
+            want = [("p", margs["m.flag"])] if margs["m.flag"] else []
+            return [] if got == want else [("recycled step keeps other resource requirements than declared", got, want)]
+'''
+
+
+def o12_3(tier):
+    import z3
+
+    from vf.props import C09
+    from vf.runner import ObResult
+    from vf.symsql.values import bz
+
+    def post(wf, aux):
+        si = z3.Int("m.step")
+        want = aux.get("resources") or {}
+        pool = wf.ctx.pool
+        bad = []
+        rows = wf.t("step_resource").rows
+        for j in range(wf.K):
+            mine = [z3.And(bz(r.present), r.vals["node"].v == j + 1) for r in rows]
+            if not want:
+                bad.append(z3.And(si == j + 1, z3.Or(*mine)))
+            else:
+                ok = [z3.And(m, r.vals["name"].v == pool.atom("p"), r.vals["units"].v == want["p"]) for m, r in zip(mine, rows)]
+                bad.append(z3.And(si == j + 1, z3.Not(z3.Or(*ok))))
+                bad.append(z3.And(si == j + 1, z3.Or(*[z3.And(m, z3.Not(o)) for m, o in zip(mine, ok)])))
+        return bad
+
+    return C09.explore_op(ObResult(), "O12.3", "try_recycle(Step, resources)", tier, post, "a recycled step keeps resource requirements other than the declared ones", judge_src=JUDGE_RES, key="O12.3:recycle-resources")
+
+
 OBLIGATIONS = [
     Ob("O12.1", o12_1, "resources: one dispatch keeps 'units held by RUNNING steps <= available'; RUNNING only without stored hash", weight=4, timeout={"quick": 2400, "thorough": 7200}),
     Ob("O12.2", o12_2, "hold: no descendant of a holding step starts its command", weight=4, timeout={"quick": 2400, "thorough": 7200}),
@@ -200,4 +233,5 @@ OBLIGATIONS = [
 OBLIGATIONS += [
     Ob("O12.2h", C10.mk_o10_3("Step.hold"), "hold() flags what it makes stale (C10/O10.3)", weight=3, timeout={"quick": 2400, "thorough": 10800}),
     Ob("O12.2r", C10.mk_o10_3("Step.release"), "release() flags what it makes stale (C10/O10.3)", weight=3, timeout={"quick": 2400, "thorough": 10800}),
+    Ob("O12.3", o12_3, "a fully recycled step requires exactly the declared resources", weight=3, timeout={"quick": 2400, "thorough": 7200}),
 ]
